@@ -11,6 +11,9 @@ def run(tier, seed):
     progs = sets.quick_programs(seed) if tier == "quick" else sets.thorough_programs(seed)
     progs = sets.dedupe(progs + [p for p in sets.focused_programs(sorted(sets.BIT_KINDS), seed, partners=(), tier="quick",
                                                                  sandwich=("u8", "inner", "a_u16_3", "d_char")) if len(p.kinds) == 3])
+    from checks.t2util import prove_summaries
+
+    prove_summaries(rep, tier)
     specs = [("t2.cases", "make_rel", (p.to_json(),)) for p in progs]
     specs += [("contracts.compiler", "make_fallback", (i,)) for i in range(3)]
     res = run_cases(specs)
